@@ -117,6 +117,12 @@ class Runner:
         if late:
             self.tl.ignore_exceptions = bool(tolerant)
         self.streams, self.tracks, self.ids, self.k, self.dead = {}, {}, {}, 0, False
+        # how much the application lets isobar log must not change what the scheduler does (a third of the cases each:
+        # default, errors only, nothing at all)
+        import logging
+        level = (logging.WARNING, logging.ERROR, logging.CRITICAL + 10)[(q * 5 + tpb) % 3]
+        for name in ("isobar", "isobar.timelines.timeline", "isobar.timelines.track"):
+            logging.getLogger(name).setLevel(level)
 
     def beats(self, units):
         return units / self.U
@@ -171,7 +177,7 @@ class Runner:
                 raise StopIteration
         # user callbacks come in every callable shape: plain function, lambda, functools.partial,
         # callable object, bound method (chosen deterministically from the item)
-        kind = (len(ops) * 3 + {"ok": 0, "exc": 1, "stop": 2}[out] + sum(len(o) for o in ops)) % 5
+        kind = (len(ops) * 3 + {"ok": 0, "exc": 1, "stop": 2}[out] + sum(len(o) for o in ops)) % 7
         if kind == 1:
             return lambda: action()
         if kind == 2:
@@ -187,6 +193,21 @@ class Runner:
                 def method(self_inner):
                     return action()
             return _Holder().method
+        if kind == 5:
+            # a callable that cannot be hashed (defines __eq__ without __hash__, as a dataclass instance does)
+            class _Unhashable:
+                def __eq__(self_inner, other):
+                    return self_inner is other
+
+                def __call__(self_inner):
+                    return action()
+            return _Unhashable()
+        if kind == 6:
+            # a callable whose signature cannot be introspected in the ordinary way
+            class _Meta(type):
+                def __call__(cls, *a, **kw):
+                    return action()
+            return _Meta("_Cls", (), {})
         return action
 
     # -- ops ------------------------------------------------------------------------------------
